@@ -51,6 +51,9 @@ pub const FILES: &[(&str, &str)] = &[
   ("f1.js", "x;\ny;\nz;\n"),
   ("f2.js", "a b c\n;;{}\n"),
   ("f3.js", "one line no break"),
+  // lines that begin with separators and go on with statement text on the same line (seed S105), CR LF line ends, a line of blanks
+  ("f4.js", "} else {\n;x = 1;\n{y}z\n"),
+  ("f5.js", "a;\r\n} b\r\n \t\r\n;;c"),
 ];
 
 /// a map consistent with `t`: sorted, every segment on a character of `t` (or zero-width at EOL when allowed)
